@@ -43,6 +43,11 @@ CLAIMS['C06'] = dict(level='other', technique='ordered must-pass-through obligat
     note='Scoped to ElementRaw::{set_item_name, move_element_local, move_element_full} and their public entry points.',
     ref='§4 C06')
 
+CLAIMS['C15'] = dict(level='other', technique='static lock-order analysis: guard-liveness forward dataflow on drop-elaborated MIR, lock-owner provenance (self/parameter/child/parent/root/lookup/fresh), acquisition summaries to a fixpoint over the resolved call graph incl. closures, verdict per (held, acquired) pair against the documented order',
+    text='Decides whether every blocking acquisition in the crate respects the one partial order Element(ancestor) < Element(descendant) < Model < File; if all do, no set of threads can form a wait cycle under ANY interleaving. On the pinned tree 39 order-violating edges remain (known findings, one per edge key; three verdict classes reproduced as real deadlocks of two OS threads); 12 were removed by a fix: commit. Any new violating edge (e.g. a try-lock turned blocking, a guard held across a call that locks upward) is a VIOLATION.',
+    note='Sound for "no wait cycle" up to the provenance abstraction, which only ever adds edges; trait-object calls (dyn Debug) are not followed; three edges on objects not yet shared are reviewed exceptions (tables/c15_reviewed.json) with a checked premise. Does not decide starvation under the 10 ms timeouts.',
+    ref='§4 C15')
+
 NA = {
     'C16': 'serialisability quantifies over interleavings and compares with sequential runs; the only static route (two-phase/reduction analysis) rejects essentially every public operation of the present design, so it cannot separate code that holds the property from code that does not',
     'C20': 'statement about numeric results (exactness, correct rounding, overflow per width) computed by std parsers for all texts; no static argument in reach bounds these run-time quantities',
